@@ -260,7 +260,7 @@ Proof.
   right. right.
   destruct (reachable_origin _ _ _ _ Hin) as (s1 & o & (_ & Hsort & _) & (Hsite & _ & Hst)).
   destruct Hsite as [_ Hsite]. rewrite Hs in Hsite, Hst.
-  destruct Hsite as (_ & _ & _ & _ & hn). destruct Hst as (_ & _ & _ & _ & hg).
+  destruct Hsite as (_ & _ & _ & _ & hn). destruct Hst as (_ & _ & _ & _ & _ & hg).
   assert (Hn : normal_mode (r_fl r)) by (split; assumption).
   destruct (hn Hn) as [hf _]. specialize (hg Hn).
   apply fntr_tier; [rewrite hg; exact Hsort | exact hf].
@@ -269,8 +269,6 @@ Qed.
 End Theorems.
 
 (* ------------------------------------------------------------------ stopped: client-level op lists *)
-
-Definition client_level (o : op) : Prop := o <> OSendStop.
 
 Lemma stop_inv_step s o : Inv s -> stop_inv (fl s) -> client_level o -> stop_inv (fl (step s o)).
 Proof. intros (Hm & _) Hs Ho. destruct (step_spec s Hm o) as (_ & h & _). apply h; assumption. Qed.
@@ -288,10 +286,10 @@ Proof.
     + destruct Hsite as (h & _). congruence.
     + split; [reflexivity | apply Hsite].
     + destruct Hsite as (h & _). congruence.
-    + destruct Hsite as (he & hm & _). destruct Hst as ((_ & _ & h3) & ha).
+    + destruct Hsite as (he & hm & _). destruct Hst as (_ & (_ & _ & h3) & ha).
       rewrite Hev in he. symmetry in he. apply (mask_excl_stopped _ hm) in he.
       rewrite h3 in he. specialize (Hk he). congruence.
-    + destruct Hsite as (he & hm & _). destruct Hst as ((_ & _ & h3) & ha & _).
+    + destruct Hsite as (he & hm & _). destruct Hst as (_ & (_ & _ & h3) & ha & _).
       rewrite Hev in he. symmetry in he. apply (mask_excl_stopped _ hm) in he.
       rewrite h3 in he. specialize (Hk he). congruence.
 Qed.
@@ -318,23 +316,6 @@ Qed.
 
 (* ------------------------------------------------------------------ started / completed: trace form *)
 
-(* ops that end the obligation to carry 'started': the client replaces the event, or a tracker
-   accepts a request that carried STARTED while the controller is active *)
-Definition clears (ev : event) (s : state) (o : op) : Prop :=
-  match o with
-  | OSendStop | OStop false => True
-  | OSendStart | OStart false => ev <> EvStarted
-  | OSendCompleted => ev <> EvCompleted
-  | OSuccess id _ _ => f_active (fl s) = true /\ exists t, find_id (trs s) id = Some t /\ t_busy t = true /\ t_ev t = ev
-  | _ => False
-  end.
-
-Fixpoint pending_run (ev : event) (s : state) (ops : list op) : Prop :=
-  match ops with
-  | [] => True
-  | o :: rest => ~ clears ev s o /\ pending_run ev (step s o) rest
-  end.
-
 Definition pend_flag (ev : event) (f : flags) : bool :=
   match ev with EvStarted => f_start f | EvCompleted => f_completed f | _ => false end.
 
@@ -355,6 +336,13 @@ Proof.
       [rewrite (proj1 (update_timeout_same _ _)) |]; destruct Hev; subst ev; exact Hp.
 Qed.
 
+Lemma send_completed_flag s : f_completed (fl (send_completed_event s)) = true.
+Proof.
+  unfold send_completed_event. set (s1 := set_fl s _).
+  destruct (negb (f_active (fl s1)) || negb (has_usable (trs s1))); [reflexivity |].
+  destruct (send_to_in_use_E SrcCompleted EvCompleted (ctl_close s1)) as [_ (h & _)]. rewrite h. reflexivity.
+Qed.
+
 Lemma pend_flag_step ev s o : (ev = EvStarted \/ ev = EvCompleted) -> mask_excl (fl s) ->
   pend_flag ev (fl s) = true -> ~ clears ev s o -> pend_flag ev (fl (step s o)) = true.
 Proof.
@@ -368,8 +356,7 @@ Proof.
   - unfold ctl_close. simpl. destruct Hev; subst ev; exact Hp.
   - destruct (send_start_event_spec s) as (_ & b & _). destruct Hev; subst ev; simpl; [exact b | exfalso; apply Hc; discriminate].
   - exfalso. apply Hc. exact I.
-  - destruct Hev; subst ev; [exfalso; apply Hc; discriminate |].
-    exfalso. apply Hc. intros E. apply E. reflexivity.
+  - destruct Hev; subst ev; [exfalso; apply Hc; discriminate | apply send_completed_flag].
   - destruct (send_update_event_spec s Hm) as (_ & h & _). apply Hsame. exact h.
   - unfold manual_request. destruct (tmo s); [| exact Hp].
     destruct (send_update_event_spec s Hm) as (_ & h & _). apply Hsame. exact h.
@@ -382,7 +369,7 @@ Proof.
   - unfold reply_success. destruct (find_id (trs s) id) as [t |] eqn:Hf; [| exact Hp].
     destruct (negb (t_busy t)) eqn:Hb; [exact Hp |]. apply negb_false_iff in Hb.
     apply ctl_receive_success_flag; auto.
-    destruct (f_active (fl s)) eqn:Ha; [left | right; reflexivity].
+    destruct (f_active (fl s)) eqn:Ha; [left | right; exact Ha].
     intros E. apply Hc. split; [reflexivity |]. exists t. ssplit; auto.
   - unfold reply_failure. destruct (find_id (trs s) id); [| exact Hp]. destruct (negb (t_busy t)); [exact Hp |].
     simpl. destruct (negb (f_active (fl s))); [exact Hp |].
@@ -403,3 +390,141 @@ Proof.
   - destruct skip_tracker; [| exfalso; apply Hc; exact I].
     unfold ctl_disable. destruct (negb (f_active (fl s))); [exact Hp |]. simpl. destruct Hev; subst ev; exact Hp.
 Qed.
+
+Lemma pend_flag_current ev f : (ev = EvStarted \/ ev = EvCompleted) -> mask_excl f -> pend_flag ev f = true -> current_send_event f = ev.
+Proof. intros [E | E] Hm Hp; subst ev; simpl in Hp; [apply mask_excl_start | apply mask_excl_completed]; assumption. Qed.
+
+Lemma step_carries ev s o r : (ev = EvStarted \/ ev = EvCompleted) ->
+  pend_flag ev (fl s) = true -> ~ clears ev s o -> step_site s o r -> r_ev r = ev.
+Proof.
+  intros Hev Hp Hc ([_ Hsite] & _ & Hst).
+  assert (Hfl : same3 (r_fl r) (fl s) -> pend_flag ev (r_fl r) = true).
+  { intros (a & b & _). destruct Hev; subst ev; simpl in *; congruence. }
+  destruct (r_src r).
+  - destruct Hsite as (he & _). rewrite he.
+    destruct Hev as [E | E]; [congruence |]. exfalso. apply Hc. subst ev. destruct Hst; subst o; simpl; discriminate.
+  - exfalso. apply Hc. destruct Hst; subst o; exact I.
+  - destruct Hsite as (he & _). rewrite he.
+    destruct Hev as [E | E]; [| congruence]. exfalso. apply Hc. subst ev o. simpl. discriminate.
+  - destruct Hsite as (he & hm & _). destruct Hst as (_ & h3 & _). rewrite he.
+    apply pend_flag_current; auto.
+  - destruct Hsite as (he & hm & _). destruct Hst as (_ & h3 & _). rewrite he.
+    apply pend_flag_current; auto.
+Qed.
+
+Lemma pending_emits ev : (ev = EvStarted \/ ev = EvCompleted) -> forall ops s,
+  Inv s -> pend_flag ev (fl s) = true -> pending_run ev s ops ->
+  exists new, log (run s ops) = new ++ log s /\ Forall (fun r => r_ev r = ev) new.
+Proof.
+  intros Hev. induction ops as [| o ops IH]; intros s HI Hp Hrun; simpl.
+  - exists []. split; [reflexivity | constructor].
+  - destruct Hrun as [Hc Hrest]. pose proof HI as (Hm & _).
+    destruct (step_spec s Hm o) as (_ & _ & _ & [n1 [e1 f1]]).
+    destruct (IH (step s o) (Inv_step s o HI) (pend_flag_step ev s o Hev Hm Hp Hc) Hrest) as [n2 [e2 f2]].
+    exists (n2 ++ n1). split; [rewrite e2, e1, app_assoc; reflexivity |].
+    apply Forall_app. split; [assumption |].
+    eapply Forall_impl; [| exact f1]. intros r Hr. eapply step_carries; eauto.
+Qed.
+
+Lemma run_app s ops1 ops2 : run s (ops1 ++ ops2) = run (run s ops1) ops2.
+Proof. unfold run. apply fold_left_app. Qed.
+
+(* every announce attempt from send_start_event until a tracker accepts a request that carried
+   STARTED (or the client replaces the event by stop/completed) carries STARTED *)
+Lemma started_carried_trace t0 groups ops1 o ops2 :
+  o = OSendStart \/ o = OStart false ->
+  let s0 := run (init t0 groups) ops1 in
+  pending_run EvStarted (step s0 o) ops2 ->
+  exists new, log (run (step s0 o) ops2) = new ++ log s0 /\ Forall (fun r => r_ev r = EvStarted) new.
+Proof.
+  intros Ho s0 Hrun.
+  assert (HI : Inv s0) by (apply Inv_run, Inv_init). pose proof HI as (Hm & _).
+  assert (Hf : f_start (fl (step s0 o)) = true).
+  { destruct Ho; subst o; simpl; [apply send_start_event_spec | apply (send_start_event_spec (ctl_enable true s0))]. }
+  destruct (step_spec s0 Hm o) as (_ & _ & _ & [n1 [e1 f1]]).
+  destruct (pending_emits EvStarted (or_introl eq_refl) ops2 (step s0 o) (Inv_step s0 o HI) Hf Hrun) as [n2 [e2 f2]].
+  exists (n2 ++ n1). split; [rewrite e2, e1, app_assoc; reflexivity |].
+  apply Forall_app. split; [assumption |].
+  eapply Forall_impl; [| exact f1]. intros r ([_ Hsite] & _ & Hst).
+  destruct (r_src r).
+  - apply Hsite.
+  - destruct Ho, Hst; subst o; discriminate.
+  - destruct Ho; subst o; discriminate.
+  - destruct Hst as ([E | E] & _); destruct Ho; subst o; discriminate.
+  - destruct Hst as (E & _). destruct Ho; subst o; contradiction.
+Qed.
+
+Lemma completed_carried_trace t0 groups ops1 ops2 :
+  let s0 := run (init t0 groups) ops1 in
+  pending_run EvCompleted (step s0 OSendCompleted) ops2 ->
+  exists new, log (run (step s0 OSendCompleted) ops2) = new ++ log s0 /\ Forall (fun r => r_ev r = EvCompleted) new.
+Proof.
+  intros s0 Hrun.
+  assert (HI : Inv s0) by (apply Inv_run, Inv_init). pose proof HI as (Hm & _).
+  assert (Hf : f_completed (fl (step s0 OSendCompleted)) = true) by apply send_completed_flag.
+  destruct (step_spec s0 Hm OSendCompleted) as (_ & _ & _ & [n1 [e1 f1]]).
+  destruct (pending_emits EvCompleted (or_intror eq_refl) ops2 _ (Inv_step s0 _ HI) Hf Hrun) as [n2 [e2 f2]].
+  exists (n2 ++ n1). split; [rewrite e2, e1, app_assoc; reflexivity |].
+  apply Forall_app. split; [assumption |].
+  eapply Forall_impl; [| exact f1]. intros r ([_ Hsite] & _ & Hst).
+  destruct (r_src r).
+  - destruct Hst; discriminate.
+  - destruct Hst; discriminate.
+  - apply Hsite.
+  - destruct Hst as ([E | E] & _); discriminate.
+  - destruct Hst as (E & _). contradiction.
+Qed.
+
+(* ------------------------------------------------------------------ constants, non-vacuity, remaining refutation *)
+
+Lemma backoff_table :
+  map backoff [1; 2; 3; 4; 5; 6; 7; 8; 9; 100] = [5; 10; 20; 40; 80; 160; 300; 300; 300; 300].
+Proof. vm_compute. reflexivity. Qed.
+
+Lemma setters_clamp_all v :
+  min_normal <= set_normal_interval v <= max_normal /\ min_min <= set_min_interval v <= max_min.
+Proof.
+  pose proof params_facts as (p1&p2&p3&p4&p5). unfold set_normal_interval, set_min_interval. lia.
+Qed.
+
+(* the strict reading of tier order is false of the (faithful) model: the two listed findings *)
+Lemma tier_order_strict_refuted :
+  exists t0 groups ops r u, In r (log (run (init t0 groups) ops)) /\
+    r_src r = SrcTimer /\ f_promisc (r_fl r) = false /\ f_requesting (r_fl r) = false /\
+    In u (r_trs r) /\ Nat.ltb (t_group u) (t_group (r_pre r)) = true /\
+    t_en u = true /\ t_busy u = false /\ t_fc u = 0.
+Proof.
+  exists 31536000000000, [0%nat; 1%nat; 2%nat],
+    [OEnable true; OSendStart; OFailure 0%nat None; OSuccess 1%nat 1800 600; OFailure 2%nat None; ONext; OFailure 0%nat None].
+  eexists. eexists. split; [vm_compute; left; reflexivity |].
+  vm_compute. split; [reflexivity |]. split; [reflexivity |]. split; [reflexivity |].
+  split; [right; left; reflexivity |]. repeat split; reflexivity.
+Qed.
+
+(* regression of the repaired defects, inside the model: the former witnesses now behave *)
+Example manual_request_keeps_started :
+  exists r, In r (log (run (init 31536000000000 [0%nat]) [OEnable true; OSendStart; OFailure 0%nat None; OManual])) /\
+    r_src r = SrcUpdate /\ r_ev r = EvStarted.
+Proof. eexists. split; [vm_compute; left; reflexivity |]. vm_compute. split; reflexivity. Qed.
+
+Example pending_run_inhabited :
+  pending_run EvStarted (step (run (init 31536000000000 [0%nat; 1%nat]) [OEnable true]) OSendStart)
+    [OFailure 0%nat None; OManual; OAdvance 3000000; ONext].
+Proof. vm_compute. repeat split; try tauto; intros [H _]; discriminate. Qed.
+
+Example sites_inhabited :
+  exists r, In r (log (run (init 31536000000000 [0%nat; 0%nat; 1%nat])
+      [OStart false; OFailure 0%nat None; OAdvance 3000000; OSuccess 1%nat 1800 600; ONext; OSendCompleted; OStop false])) /\
+    r_ev r = EvStopped /\ r_src r = SrcStop.
+Proof. eexists. split; [vm_compute; left; reflexivity |]. vm_compute. split; reflexivity. Qed.
+
+Example timer_site_inhabited :
+  exists r, In r (log (run (init 31536000000000 [0%nat]) [OStart false; OFailure 0%nat None; ONext])) /\
+    r_src r = SrcTimer /\ t_fc (r_pre r) <> 0 /\ f_start (r_fl r) = true /\ r_ev r = EvStarted.
+Proof. eexists. split; [vm_compute; left; reflexivity |]. vm_compute. repeat split; congruence. Qed.
+
+Example min_interval_site_inhabited :
+  exists r, In r (log (run (init 31536000000000 [0%nat]) [OStart false; OSuccess 0%nat 600 3000; OStartRequesting; OAdvance 0; ONext])) /\
+    r_src r = SrcTimer /\ t_fc (r_pre r) = 0 /\ t_sc (r_pre r) <> 0 /\ t_mi (r_pre r) = 3000 /\
+    r_time r / usec = t_stl (r_pre r) + 3000.
+Proof. eexists. split; [vm_compute; left; reflexivity |]. vm_compute. repeat split; congruence. Qed.
